@@ -18,6 +18,7 @@ type VC struct {
 	BV     bool // bit-vector mode: sized integers are bit-vectors
 	Notes  []string
 	Assume map[string]bool // assumptions used (for evidence)
+	Deferred int            // clauses marked @thorough that were skipped in the quick tier
 }
 
 // Obligation is one proof obligation: under Hyp (reachability / path condition)
